@@ -234,6 +234,8 @@ class CallState:
         self.draws = script.get("draws") or []
         self.n = {}  # site -> invocation count
         self.susp = 0
+        self.yields = 0
+        self.pending_us = None
         self.objects = {}
         self.last_cls_obj = None
         self.task = None
@@ -305,18 +307,36 @@ class Env:
         cs = self.cs()
         k = cs.susp
         cs.susp += 1
+        cs.pending_us = us
         self.ev("SUSPEND", k=k, where=where, us=us)
+        await asyncio.sleep(us / 1e6)
+        cs.pending_us = None
+
+    def after_step(self, task) -> None:
+        """Called by the SimLoop after every step of every task: if the task that runs
+        a policy call is now suspended, this is its next *suspension point* -- wherever
+        the await is (scripted stubs or the library's own code).  Cancellation faults
+        are keyed on this index."""
+        cs = self._cs_by_task.get(task)
+        if cs is None or task.done():
+            return
+        k = cs.yields
+        cs.yields += 1
+        self.seq += 1
+        self.trace.append({"seq": self.seq, "t": self.clock.mono_us - self.clock.base_us, "call": cs.cid, "ev": "YIELD", "k": k})
         for f in cs.faults:
             if f.get("site") == "cancel" and f.get("at") == k:
                 self.fired("cancel_at_await")
                 frac = f.get("frac", 0)
-                task = asyncio.current_task()
-                self.ev("FAULT", site="cancel", idx=k, where=where)
-                if us > 0 and frac:
-                    self.loop.call_later((us * frac // 100) / 1e6, task.cancel)
+                us = cs.pending_us or 0
+                delay = (us * frac // 100) if (us > 0 and frac) else 0
+                self.seq += 1
+                self.trace.append({"seq": self.seq, "t": self.clock.mono_us - self.clock.base_us, "call": cs.cid, "ev": "FAULT",
+                                   "site": "cancel", "idx": k, "delay": delay})
+                if delay:
+                    self.loop.call_later(delay / 1e6, task.cancel)
                 else:
                     task.cancel()
-        await asyncio.sleep(us / 1e6)
 
     # -- default sleepers (library's time.sleep / asyncio.sleep) ----------
     def default_sleep(self, s) -> None:
